@@ -97,7 +97,8 @@ mutual
     | forLoop (values : Nat) (body : List Item)
     | forPos (body : List Item)            -- `for v do …`: one iteration per positional parameter
     | forRo (values : Nat)                 -- `for ro in w1 … wn`: the loop variable is read-only
-    | caseC (items : List (Bool × List Item × CaseCont))   -- (pattern matches, body, continuation)
+    | caseC (items : List (Bool × Bool × List Item × CaseCont))
+        -- (a pattern matches, evaluating the patterns fails before any match, body, continuation)
     | fundef (name : Name) (body : Cmd)
     -- shell errors (C10)
     | expErr                               -- simple command whose word expansion fails (`probe ${u?}`)
@@ -391,11 +392,13 @@ mutual
       | .next => execFor fuel s1 n body
 
   /-- `case::execute`; flags: falling through, exit status updated -/
-  def execCase : Nat → St → List (Bool × List Item × CaseCont) → Bool → Bool → St × Res × Bool
+  def execCase : Nat → St → List (Bool × Bool × List Item × CaseCont) → Bool → Bool → St × Res × Bool
     | 0, s, _, _, u => (s, .outOfFuel, u)
     | _+1, s, [], _, u => (s, .continue_, u)
-    | fuel+1, s, (m, body, k) :: rest, falling, u =>
-      if !falling && !m then execCase fuel s rest false u
+    | fuel+1, s, (m, e, body, k) :: rest, falling, u =>
+      -- the patterns of an item are expanded only when the item is not entered by falling through
+      if !falling && e then (s, s.expansionError, u)
+      else if !falling && !m then execCase fuel s rest false u
       else
         let (s1, r) := execList fuel s body
         match r with
